@@ -121,6 +121,7 @@ double MetaOptimizer::doStep()
   stepCount_++;
 
   int tolTest = 0;
+  int fullTest = 0;
   double tol = getStopCondition()->getTolerance();
   if (stepCount_ <= n_ && std::abs(initialValue_) > 0)
   {
@@ -162,8 +163,11 @@ double MetaOptimizer::doStep()
       getParameters_().matchParametersValues(opt.getParameters());
     }
     tolTest += nbParameters_[i] > 0 ? 1 : 0;
+    fullTest += (nbParameters_[i] > 0 && optDesc_->getIterationType(i) == MetaOptimizerInfos::IT_TYPE_FULL) ? 1 : 0;
   }
-  tolIsReached_ = (tolTest == 1);
+  // A single optimiser that has been run until its own convergence has nothing left to do;
+  // one that makes one step per iteration is iterated until the stop condition is met.
+  tolIsReached_ = (tolTest == 1 && fullTest == 1);
 
   return getFunction()->getValue();
 }
